@@ -44,13 +44,13 @@ Qed.
 
 (** replaying an update *)
 Lemma feed_apply_update m n u us p tgt q :
-  n_upd n = u :: us -> stored_index n = Ok p ->
+  n_upd n = u :: us -> n_del n = [] -> stored_index n = Ok p ->
   rfind (feed_apply m n) tgt q =
   if String.eqb (feed_target n) tgt && path_eqb p q then Some n
   else if String.eqb tgt (feed_target n) && (if n_atomic n then is_prefix p q else path_eqb p q)
        then None else rfind m tgt q.
 Proof.
-  intros Hu Hi. unfold feed_apply. cbv zeta. rewrite Hu, Hi. cbn [rfind fst snd].
+  intros Hu Hd Hi. unfold feed_apply. cbv zeta. rewrite Hu, Hd, Hi. cbn [fold_left rfind fst snd].
   destruct (String.eqb (feed_target n) tgt && path_eqb p q) eqn:Hk; [reflexivity|].
   unfold rremove.
   pose proof (rfind_filter (fun t s => negb (String.eqb t (feed_target n) &&
@@ -294,6 +294,8 @@ Variable name : string.            (* the target *)
 (** a unit (a notification stored as one leaf) the statement admits *)
 Definition good_unit (v : notif) : Prop :=
   feed_target v = name /\
+  n_del v = [] /\                                (* true of every unit: a single-update or atomic
+                                                    notification with deletes is never stored, clones have none *)
   notif_eqb v v = true /\                        (* key maps are maps *)
   delete_index v = stored_index v /\             (* its deletion is announced under its own index path *)
   forall s, stored_index v = Ok s -> glob_free s = true.
@@ -357,7 +359,7 @@ Lemma update_unit_inv t m now n t' r :
 Proof.
   intros (Hwf & Hst & Hrel) Hg E.
   destruct (gnmi_update1_result _ _ _ _ _ Hwf E) as (Hw' & (_ & Hc & _) & Hr).
-  destruct Hg as (Htg & Hrf & Hdi & Hgs).
+  destruct Hg as (Htg & Hnd & Hrf & Hdi & Hgs).
   destruct r as [o|e|w]; [|split; [exact Hw'|rewrite Hr, Hc; split; assumption]|exact I].
   destruct Hr as (p & Hi & Hne & Hl & Ho).
   pose proof (proj1 (unit_index_stored n p) Hi) as Hsi.
@@ -365,14 +367,14 @@ Proof.
   assert (Hst' : forall s v, lookup (t_tree t') s = Some v -> good_unit v /\ stored_index v = Ok s).
   { intros s v. rewrite Hl. destruct (path_eqb_spec s p) as [->|].
     - intros Hv; inversion Hv; subst.
-      split; [split; [exact Htg|split; [exact Hrf|split; [exact Hdi|exact Hgs]]]|exact Hsi].
+      split; [split; [exact Htg|split; [exact Hnd|split; [exact Hrf|split; [exact Hdi|exact Hgs]]]]|exact Hsi].
     - apply Hst. }
   destruct o as [nd|].
   - subst nd. split; [exact Hw'|]. split; [exact Hst'|]. intros s. rewrite Hc.
     assert (Hu : exists u us, n_upd n = u :: us).
     { unfold stored_index in Hsi. destruct (n_upd n) as [|u us]; [discriminate|eauto]. }
     destruct Hu as (u & us & Hu).
-    rewrite (feed_apply_update m n u us p name s Hu Hsi), Htg, String.eqb_refl. cbn [andb].
+    rewrite (feed_apply_update m n u us p name s Hu Hnd Hsi), Htg, String.eqb_refl. cbn [andb].
     rewrite Hl. rewrite (path_eqb_sym s p) at 1.
     destruct (path_eqb_spec p s) as [->|Hps].
     + cbn. now left.
@@ -443,13 +445,13 @@ Proof.
   { intros s v. rewrite Hl. unfold sel. destruct (lookup (t_tree t) s) as [w|] eqn:Hw; [|discriminate].
     destruct (qmatch p s && older_than (n_ts n) w); [discriminate|]. intros Hv; inversion Hv; subst. now apply Hst. }
   intros q. rewrite Hc, replay_deletes.
-  2:{ apply Forall_forall. intros d Hd. destruct (Hgood d Hd) as (s & _ & _ & _ & (Htg & _ & Hdi & _) & Hsi).
+  2:{ apply Forall_forall. intros d Hd. destruct (Hgood d Hd) as (s & _ & _ & _ & (Htg & _ & _ & Hdi & _) & Hsi).
       split; [exact Htg|]. unfold sidx. rewrite Hsi. congruence. }
   rewrite Hl. unfold sel.
   destruct (existsb (fun d => qmatch (sidx d) q) removed) eqn:Hex.
   - (* some removed leaf's delete notification covers q *)
     apply existsb_exists in Hex as (d & Hd & Hq).
-    destruct (Hgood d Hd) as (s & Hls & Hps & Hold & (_ & _ & _ & Hgs) & Hsi).
+    destruct (Hgood d Hd) as (s & Hls & Hps & Hold & (_ & _ & _ & _ & Hgs) & Hsi).
     unfold sidx in Hq. rewrite Hsi in Hq. pose proof (Hgs s Hsi) as Hgf.
     rewrite (qmatch_glob_free s q Hgf) in Hq. apply is_prefix_spec in Hq as (x & ->).
     destruct (lookup (t_tree t) (s ++ x)) as [w|] eqn:Hw; [|exact I].
@@ -760,7 +762,7 @@ Proof.
   { split; [exact I|]. split; [intros s v Hv; discriminate|intros s; exact I]. }
   destruct (history_inv name H _ _ H0 Hg Hnp) as (_ & Hst & Hrel).
   intros s. specialize (Hrel s). rewrite trun_cfg in Hrel. apply srel_rel; [|exact Hrel].
-  intros c Hc. destruct (Hst s c Hc) as ((_ & Hrf & _) & _). exact Hrf.
+  intros c Hc. destruct (Hst s c Hc) as ((_ & _ & Hrf & _) & _). exact Hrf.
 Qed.
 
 (** * withheld only if rejected, or unchanged under event-driven emulation *)
@@ -904,8 +906,8 @@ Proof.
   split; [|split; [cbv; repeat split; discriminate|vm_compute; reflexivity]].
   intros h Hh m Hm. cbn in Hh.
   repeat (destruct Hh as [<-|Hh]; [cbn in Hm; repeat (destruct Hm as [Hm|Hm]; [inversion Hm; subst; clear Hm|]); try contradiction;
-    (split; [reflexivity|split; [reflexivity|split; [reflexivity|
-       intros s Hs; vm_compute in Hs; inversion Hs; subst; reflexivity]]])|]).
+    (split; [reflexivity|split; [reflexivity|split; [reflexivity|split; [reflexivity|
+       intros s Hs; vm_compute in Hs; inversion Hs; subst; reflexivity]]]])|]).
   contradiction.
 Qed.
 
@@ -917,16 +919,22 @@ Lemma feed_apply_other m n tgt q :
 Proof.
   intros Hne. assert (Hb : String.eqb tgt (feed_target n) = false) by now apply String.eqb_neq.
   assert (Hb' : String.eqb (feed_target n) tgt = false) by (rewrite String.eqb_sym; exact Hb).
-  unfold feed_apply. cbv zeta. destruct (n_upd n) as [|u us].
-  - generalize m. induction (n_del n) as [|d ds IH]; intros m0; cbn [fold_left]; [reflexivity|].
+  unfold feed_apply. cbv zeta.
+  assert (Hdel : forall m0, rfind (fold_left (fun m' d =>
+            match join_prefix_and_path (gp_of_opt (n_prefix n)) d with
+            | Ok p => rremove m' (fun e => negb (String.eqb (fst (fst e)) (feed_target n) && qmatch p (snd (fst e))))
+            | _ => m'
+            end) (n_del n) m0) tgt q = rfind m0 tgt q).
+  { induction (n_del n) as [|d ds IH]; intros m0; cbn [fold_left]; [reflexivity|].
     rewrite IH. destruct (join_prefix_and_path _ d) as [p| |]; try reflexivity. unfold rremove.
     pose proof (rfind_filter (fun t s => negb (String.eqb t (feed_target n) && qmatch p s)) m0 tgt q) as H.
-    cbv beta in H. refine (eq_trans H _). now rewrite Hb.
-  - destruct (stored_index n) as [p| |]; try reflexivity. cbn [rfind fst snd]. rewrite Hb'. cbn [andb].
-    unfold rremove.
-    pose proof (rfind_filter (fun t s => negb (String.eqb t (feed_target n) &&
-              (if n_atomic n then is_prefix p s else path_eqb p s))) m tgt q) as H.
-    cbv beta in H. refine (eq_trans H _). now rewrite Hb.
+    cbv beta in H. refine (eq_trans H _). now rewrite Hb. }
+  rewrite Hdel. destruct (n_upd n) as [|u us]; [reflexivity|].
+  destruct (stored_index n) as [p| |]; try reflexivity. cbn [rfind fst snd]. rewrite Hb'. cbn [andb].
+  unfold rremove.
+  pose proof (rfind_filter (fun t s => negb (String.eqb t (feed_target n) &&
+            (if n_atomic n then is_prefix p s else path_eqb p s))) m tgt q) as H.
+  cbv beta in H. refine (eq_trans H _). now rewrite Hb.
 Qed.
 
 Lemma feed_fold_other l : forall m tgt q,
@@ -1093,7 +1101,7 @@ Proof.
   { unfold stored_index, meta_noti. cbn [n_upd n_atomic n_prefix u_path gp_of_opt].
     unfold join_prefix_and_path, to_strings, gp_of_names. cbn [gp_target gp_origin gp_elems gp_element map flat_map].
     unfold nonempty. destruct (String.eqb_spec name ""); [contradiction|]. reflexivity. }
-  split; [|exact Hidx]. split; [reflexivity|]. split.
+  split; [|exact Hidx]. split; [reflexivity|]. split; [reflexivity|]. split.
   { unfold notif_eqb, meta_noti, update_eqb, ogpath_eqb, gpath_eqb, gp_of_names, otv_eqb.
     cbn -[String.eqb Z.eqb tv_eqb]. rewrite !Z.eqb_refl, !String.eqb_refl, Htv.
     unfold pelem_eqb, keymap_eqb. cbn -[String.eqb]. rewrite !String.eqb_refl. reflexivity. }
@@ -1259,7 +1267,7 @@ Proof.
   assert (Hroots : forall r, In r roots -> is_glob r = false /\ r <> "").
   { intros r Hr. apply filter_In in Hr as [Hr _].
     destruct (root_child_stored _ r (proj1 Hi2) Hr) as (s & v & Hs).
-    destruct Hi2 as (_ & Hst & _). destruct (Hst _ _ Hs) as ((_ & _ & _ & Hgs) & Hsi).
+    destruct Hi2 as (_ & Hst & _). destruct (Hst _ _ Hs) as ((_ & _ & _ & _ & Hgs) & Hsi).
     specialize (Hgs _ Hsi). cbn [glob_free forallb] in Hgs. apply andb_true_iff in Hgs as [Hk _].
     apply andb_true_iff in Hk as [H1 H2]. split; [now apply negb_true_iff in H1|].
     apply negb_true_iff in H2. now apply String.eqb_neq in H2. }
@@ -1619,7 +1627,7 @@ Proof.
   destruct (cache_history_inv ops _ _ (new_cache_inv cfg names Hnd Hne) Hg) as (_ & Hs & Hn).
   destruct (assoc name (c_targets (crun (new_cache cfg names) ops))) as [t|] eqn:Ha.
   - destruct (Hs name t Ha) as (_ & _ & (_ & Hst & Hrel)). intros s. apply srel_rel; [|apply Hrel].
-    intros c Hc. destruct (Hst s c Hc) as ((_ & Hrf & _) & _). exact Hrf.
+    intros c Hc. destruct (Hst s c Hc) as ((_ & _ & Hrf & _) & _). exact Hrf.
   - exact (Hn name Ha).
 Qed.
 
@@ -1647,8 +1655,8 @@ Proof.
          | |- _ <> RPanic => vm_compute; discriminate
          | |- good_op _ (OUpd _ _) =>
              intros x Hx; cbn in Hx; repeat (destruct Hx as [Hx|Hx]; [inversion Hx; subst; clear Hx|]); try contradiction;
-             (split; [reflexivity|split; [reflexivity|split; [reflexivity|
-                intros s Hs; vm_compute in Hs; inversion Hs; subst; reflexivity]]])
+             (split; [reflexivity|split; [reflexivity|split; [reflexivity|split; [reflexivity|
+                intros s Hs; vm_compute in Hs; inversion Hs; subst; reflexivity]]]])
          | |- good_op _ (OAdd _) => split; [discriminate|vm_compute; reflexivity]
          | |- good_op _ (ORemove _ _) => cbn; discriminate
          | |- good_op _ _ => exact I
@@ -1964,4 +1972,29 @@ Lemma unlocked_lost_update :
 Proof.
   exists [true; true; false; false; false; false; true; true]. eexists. split; [vm_compute; reflexivity|].
   vm_compute. repeat split; try discriminate; intros H; discriminate H.
+Qed.
+
+(** the [n_del v = []] clause of [good_unit] is no assumption on the inputs:
+    every update unit Target.GnmiUpdate ever stores (and hence hands to the
+    feed) carries no delete -- a single-update or atomic notification WITH
+    deletes is split or refused, never stored as it is *)
+Lemma in_units_multi n us ds m :
+  In (UUpd m) (map (fun u => UUpd (clone_with_update n u)) us ++
+               map (fun d => UDel (clone_with_delete n d)) ds) -> n_del m = [].
+Proof.
+  intros H. apply in_app_or in H as [H|H]; apply in_map_iff in H as (x & Hx & _); inversion Hx; reflexivity.
+Qed.
+
+Lemma units_carry_no_delete n m : In (UUpd m) (units n) -> n_del m = [].
+Proof.
+  unfold units. destruct (n_atomic n).
+  - destruct (n_del n) as [|d ds] eqn:Hd; [|intros []].
+    destruct (n_upd n); [intros []|]. intros [H|[]]. inversion H; subst. exact Hd.
+  - destruct (n_upd n) as [|u [|u2 us]] eqn:Hu; destruct (n_del n) as [|d [|d2 ds]] eqn:Hd;
+      try (intros []; fail);
+      try (intros [H|[]]; inversion H; subst; exact Hd);
+      try (intros [H|[]]; discriminate H);
+      try apply (in_units_multi n [] _ m);
+      try apply (in_units_multi n [u] _ m);
+      try apply (in_units_multi n (u :: u2 :: us) _ m).
 Qed.
